@@ -215,8 +215,14 @@ func c06Dump() int {
 			continue
 		}
 		h := e.ScanCheckpoint(raw)
-		if !h.ParseOK || h.Branch == nil {
-			out.Probes = append(out.Probes, dumpProbe{Log: i, Kind: "unscannable", Detail: "stored checkpoint does not scan or is no known tree"})
+		if !h.ParseOK {
+			out.Probes = append(out.Probes, dumpProbe{Log: i, Kind: "unscannable", Detail: "stored checkpoint does not scan"})
+			continue
+		}
+		if h.Branch == nil {
+			// the log itself committed to a root that is no tree of the universe (accepted on
+			// first use): there is no honest continuation or fork to probe with
+			out.Probes = append(out.Probes, dumpProbe{Log: i, Kind: "unknown-tree"})
 			continue
 		}
 		key := e.LogKeys[i]
